@@ -126,13 +126,18 @@ def public_job(a):
             for o, ob in enumerate(objs):
                 v = ob.evaluate(pk)
                 cnt += 1
-                ok = (v == exp[o]) and ob.to_bin_count(v) == k \
-                    and ob.lower_bound() <= v <= ob.upper_bound()
-                if fresh is not None and fresh[o].evaluate(pk) != v:
-                    ok = False
-                if not ok and len(bads) < 3:
+                if fresh is not None and v == exp[o]:
+                    v = fresh[o].evaluate(pk)  # a fresh object must agree
+                if v != exp[o] and len(bads) < 6:
                     bads.append(("public", W, H, rows, o, int(v), exp[o],
                                  r.tolist()))
+                elif ob.to_bin_count(v) != k and len(bads) < 6:
+                    bads.append(("to_bin_count", W, H, rows, o, int(v),
+                                 ob.to_bin_count(v), k))
+                elif not ob.lower_bound() <= v <= ob.upper_bound() \
+                        and len(bads) < 6:
+                    bads.append(("bounds", W, H, rows, o, (int(v), int(v)),
+                                 (ob.lower_bound(), ob.upper_bound()), k))
                 distinct.add((o, int(v)))
         if res[9]:
             bads.append(("cap", W, H, rows, 0, 0, 0, 0))
